@@ -109,6 +109,13 @@ pub const STATEMENTS: &[&str] = &[
     "trap 'echo got' CONT; (kill -s CONT 0; echo alive); s=$?; case $s in 0) echo zero;; *) kill -l $s;; esac; trap - CONT",
     "trap 'echo got' XCPU; (kill -s XCPU 0; echo alive); s=$?; case $s in 0) echo zero;; *) kill -l $s;; esac; trap - XCPU",
     "trap 'echo got' QUIT; (kill -s QUIT 0; echo alive); s=$?; case $s in 0) echo zero;; *) kill -l $s;; esac; trap - QUIT",
+    // a writer to a pipe whose reader has gone (more than a real pipe holds, so the writer cannot
+    // have finished before): with the default disposition it dies of SIGPIPE and nothing after the
+    // write runs; with SIGPIPE ignored the write fails and the writer goes on
+    // (statuses are shown by signal name: the two systems number signals differently)
+    "(gen 150000 1; echo after > pw1) | st 0; s=$?; case $s in 0) echo zero;; *) kill -l $s;; esac", "set -o pipefail; gen 150000 1 | st 0; s=$?; set +o pipefail; case $s in 0) echo zero;; *) kill -l $s;; esac",
+    "trap '' PIPE; (gen 150000 1 2>&-; echo after > pw2) | st 0; s=$?; case $s in 0) echo zero;; *) kill -l $s;; esac; trap - PIPE", "{ gen 150000 1; echo after > pw3; } | st 0; s=$?; case $s in 0) echo zero;; *) kill -l $s;; esac",
+    "(trap 'echo caught > pw4' PIPE; gen 150000 1 2>&-; echo after >> pw4) | st 0; s=$?; case $s in 0) echo zero;; *) kill -l $s;; esac",
 ];
 
 #[derive(Clone, Debug, PartialEq, Eq, Hash, Serialize, Deserialize)]
